@@ -21,6 +21,8 @@ is its child list on raw subtrees.  Code-shaped models: `nodeChild` (port of `ts
 Clause → theorem
 * child by index ................ `child_spec`: the port of `ts_node__child` returns exactly the
   i-th element of the enumeration (descending through hidden children by their cached counts)
+* named child by index .......... `named_child_spec` (hypothesis `anonLeafOK`: unnamed visible nodes
+  are leaves — otherwise the C code descends into them and returns a grandchild)
 * child count ................... `child_count_spec`: advertised count = number of children of
   `flatten` (via C02.summarize_counts and `flattenKids_length`)
 * previous sibling (cursor) ..... `iterPrev_undoes_iterNext`: the REPAIRED reverse iterator
@@ -34,7 +36,7 @@ Clause → theorem
   `ts_subtree__write_to_string`/`ts_node_string` prints `render (flatten root)`
 * OPEN (decided on every node of every explored real tree by the judge against `flatten`, and —
   for all cursor functions and `child`/`named_child` — tied to the ports by correspondence):
-  named_child_spec, parent_spec, next/prev_sibling_spec, child_by_field_spec, field_name_spec,
+  parent_spec, next/prev_sibling_spec, child_by_field_spec, field_name_spec,
   first_child_for_byte_spec, descendant_for_range_spec, child_with_descendant_spec,
   cursor_node_agree (goto_first_child/next_sibling/parent/goto_descendant walk = preorder of
   `flatten`), descendant_index_spec.
@@ -96,6 +98,107 @@ mutual
         · simp only [hi, if_false]
           rw [List.getElem?_append_right (by rw [← hgc]; omega), ← hgc]
           exact child_kids_spec lang rest pid addr n _ _ (k + 1) (i - relevantChildCount c true) ps hs.2 hsh.2
+end
+
+mutual
+  /-- `named_child_spec`: the port of `ts_node__child(self, i, include_anonymous = false)` returns the
+  i-th NAMED entry of the enumeration of visible children, for all summarized parser-shaped trees
+  in which unnamed visible nodes are leaves (`anonLeafOK`, evaluated on every real tree). -/
+  theorem named_child_spec (lang : Lang) : ∀ (t : Tree) (ps : Option Nat) (start : Length) (i : Nat),
+      Summarized lang t → shapeOK ps t = true → anonLeafOKKids lang t.kids t.data.productionId 0 = true →
+      (nodeChild lang false t start i).map (fun r => (r.t, r.alias)) =
+        ((enumChildren lang t).filter (entryNamed lang))[i]?
+    | .mk d kids, ps, start, i, hs, hsh, hok => by
+      unfold Summarized at hs
+      unfold shapeOK at hsh
+      simp only [Bool.and_eq_true] at hsh
+      unfold nodeChild enumChildren
+      exact named_kids_spec lang kids d.productionId d.addr kids.length start 0 0 i (some d.symbol) hs.2.2 hsh.2 hok
+  theorem named_kids_spec (lang : Lang) : ∀ (kids : List Tree) (pid addr n : Nat) (pos : Length) (si k i : Nat)
+      (ps : Option Nat), SummarizedL lang kids → shapeOKL ps kids = true → anonLeafOKKids lang kids pid si = true →
+      (nodeChildKids lang false pid addr n kids pos si k i).map (fun r => (r.t, r.alias)) =
+        ((enumKids lang pid kids si).filter (entryNamed lang))[i]?
+    | [], _, _, _, _, _, _, _, _, _, _, _ => by simp [nodeChildKids, enumKids]
+    | c :: rest, pid, addr, n, pos, si, k, i, ps, hs, hsh, hok => by
+      unfold SummarizedL at hs
+      unfold shapeOKL at hsh
+      unfold anonLeafOKKids at hok
+      simp only [Bool.and_eq_true] at hsh hok
+      unfold nodeChildKids enumKids
+      simp only [List.filter_append]
+      have ihr := fun i' => named_kids_spec lang rest pid addr n
+        (length_add (if k > 0 then length_add pos c.data.padding else pos) c.data.size)
+        (if c.data.extra then si else si + 1) (k + 1) i' ps hs.2 hsh.2 hok.2
+      by_cases hva : (c.data.visible || (if c.data.extra then 0 else lang.aliasAt pid si) != 0) = true
+      · -- the child is itself an entry of the enumeration
+        simp only [hva, if_true]
+        have hrel : isRelevant lang c (if c.data.extra then 0 else lang.aliasAt pid si) false =
+            entryNamed lang (c, (if c.data.extra then 0 else lang.aliasAt pid si)) := by
+          simp only [isRelevant, entryNamed, Bool.false_eq_true, if_false]
+          by_cases ha : ((if c.data.extra then 0 else lang.aliasAt pid si) != 0) = true
+          · simp [ha]
+          · have hv : c.data.visible = true := by
+              simp only [Bool.or_eq_true] at hva
+              rcases hva with h | h
+              · exact h
+              · exact absurd h ha
+            simp [ha, hv]
+        by_cases hn : entryNamed lang (c, (if c.data.extra then 0 else lang.aliasAt pid si)) = true
+        · simp only [hrel, hn, if_true, List.filter_cons_of_pos, List.filter_nil]
+          rw [getElem?_single_append]
+          by_cases hi : i = 0
+          · simp [hi]
+          · simp only [hi, if_false]
+            exact ihr (i - 1)
+        · have hn' : entryNamed lang (c, (if c.data.extra then 0 else lang.aliasAt pid si)) = false := by simpa using hn
+          -- not named: by `anonLeafOK` it has no children, so nothing is skipped into
+          have hleaf : c.kids = [] := by
+            obtain ⟨cd, ck⟩ := c
+            have h := hok.1
+            unfold anonLeafOK at h
+            simp only [Tree.data, entryNamed] at hva hn' h
+            generalize (if cd.extra = true then 0 else lang.aliasAt pid si) = al at hva hn' h
+            simp only [Bool.and_eq_true] at h
+            have h1 := h.1
+            simp only [hva, hn', Bool.not_false, Bool.and_self, if_true] at h1
+            simpa [Tree.kids] using h1
+          simp only [hrel, hn', Bool.false_eq_true, if_false]
+          have hgc : relevantChildCount c false = 0 := by simp [relevantChildCount, hleaf]
+          simp only [hgc, Nat.not_lt_zero, if_false, Nat.sub_zero]
+          have hf : List.filter (entryNamed lang) [(c, if c.data.extra = true then 0 else lang.aliasAt pid si)] = [] := by
+            simp [List.filter, hn']
+          rw [hf, List.nil_append]
+          exact ihr i
+      · -- a hidden child: replaced by its own named children, counted by the cached named_child_count
+        have hva' : (c.data.visible || (if c.data.extra then 0 else lang.aliasAt pid si) != 0) = false := by simpa using hva
+        simp only [hva', Bool.false_eq_true, if_false]
+        have hnotrel : isRelevant lang c (if c.data.extra then 0 else lang.aliasAt pid si) false = false := by
+          simp only [Bool.or_eq_false_iff] at hva'
+          have ha : ((if c.data.extra then 0 else lang.aliasAt pid si) != 0) = false := hva'.2
+          simp [isRelevant, ha, hva'.1]
+        simp only [hnotrel, Bool.false_eq_true, if_false]
+        have hcnt := summarize_counts lang c ps hs.1 hsh.1
+        have hgc : relevantChildCount c false = ((enumChildren lang c).filter (entryNamed lang)).length := by
+          obtain ⟨cd, ck⟩ := c
+          cases ck with
+          | nil => simp [relevantChildCount, Tree.kids, enumChildren, enumKids]
+          | cons x xs =>
+            have := hcnt.2.1
+            simp only [Tree.data] at this
+            simp [relevantChildCount, Tree.kids, Tree.data, this]
+        have hokc : anonLeafOKKids lang c.kids c.data.productionId 0 = true := by
+          obtain ⟨cd, ck⟩ := c
+          have h := hok.1
+          unfold anonLeafOK at h
+          simp only [Bool.and_eq_true] at h
+          simpa [Tree.kids, Tree.data] using h.2
+        by_cases hi : i < relevantChildCount c false
+        · simp only [hi, if_true]
+          rw [List.getElem?_append_left (by rw [← hgc]; exact hi)]
+          exact named_child_spec lang c ps _ i hs.1 hsh.1 hokc
+        · simp only [hi, if_false]
+          rw [List.getElem?_append_right (by rw [← hgc]; omega), ← hgc]
+          exact ihr (i - relevantChildCount c false)
 end
 
 mutual
